@@ -25,7 +25,9 @@ def gen_specs(rng, tier, want):
         npt = int(rng.integers(n + 1, (n + 1) * (n + 2) // 2 + 1))
         m_ub, m_eq = int(rng.integers(0, 3)), int(rng.integers(0, 4 if rng.random() < 0.5 else 2))
         L = int(rng.integers(3, 13 if tier == "quick" else 61))
-        specs.append((int(rng.integers(1 << 30)), n, npt, m_ub, m_eq, L))
+        # a third of the histories on sets shrunk by 2^-k (late iterations, small radius_init): all geometry stays exact
+        k = int([10, 20, 27, 30, 34, 40][int(rng.integers(6))]) if rng.random() < 0.34 else 0
+        specs.append((int(rng.integers(1 << 30)), n, npt, m_ub, m_eq, L, k))
     return specs
 
 
@@ -35,10 +37,12 @@ CRASHES = []
 def run_histories(specs):
     hs = []
     del CRASHES[:]
-    for sd, n, npt, m_ub, m_eq, L in specs:
-        h = algrun.history(np.random.default_rng(sd), n, npt, m_ub, m_eq, L)
+    for sp in specs:
+        sd, n, npt, m_ub, m_eq, L = sp[:6]
+        k = sp[6] if len(sp) > 6 else 0
+        h = algrun.history(np.random.default_rng(sd), n, npt, m_ub, m_eq, L, sigma=2.0 ** -k)
         if h is not None:
-            h["spec"] = (sd, n, npt, m_ub, m_eq, L)
+            h["spec"] = (sd, n, npt, m_ub, m_eq, L, k)
             if "crash" in h:
                 CRASHES.append((h["spec"], h["crash"]))
             else:
@@ -212,7 +216,7 @@ def run(chk, rng, replay=None):
     for sp, what in CRASHES[:3]:
         specfail.append((sp, "a valid operation on the models raised: " + what))
     n_ops = 0
-    kinds = {"U": 0, "S": 0, "R": 0, "P": 0}
+    kinds = {"U": 0, "S": 0, "R": 0, "P": 0, "T": 0}
     worst = 0.0
     conds = []
     for h in hs:
@@ -268,7 +272,7 @@ def run(chk, rng, replay=None):
                         "truncation of tiny eigenvalues (ill-conditioned systems) is outside the theorems; sets are kept well conditioned"]
     for spec, what in specfail[:5]:
         chk.violation({"property": "C12", "kind": "spec-fails-on-implementation", "spec": spec, "failure": what,
-                       "explain": "harness/props/c12.py: algrun.history(np.random.default_rng(seed), n, npt, m_ub, m_eq, length) drives a real cobyqa.models.Models; spec = (seed, n, npt, m_ub, m_eq, length)",
+                       "explain": "harness/props/c12.py: algrun.history(np.random.default_rng(seed), n, npt, m_ub, m_eq, length) drives a real cobyqa.models.Models; spec = (seed, n, npt, m_ub, m_eq, length, k) with the geometry shrunk by 2^-k",
                        "signature": {"failure": what.split(" ")[0] + " " + what.split(" ")[1]}})
     if not specfail and (not ok or mism):
         rep = {"property": "C12", "kind": "proof-or-correspondence-broken"}
